@@ -41,11 +41,19 @@ def build(tier, seed):
         for k in ks if thorough else [1, 2, 3, 5, 12]:
             for d in "cs":
                 cases.append({"id": f"grid-n{n}-k{k}-{d}", "kind": "grid", "n": n, "k": k, "d": d})
+                if n and (thorough or k in (1, 2, 5)):
+                    # the same record followed by another one whose segment was captured BEFORE the record's last segment (reordering): still at most k segments
+                    cases.append({"id": f"grid-n{n}-k{k}-{d}-reordered", "kind": "grid", "n": n, "k": k, "d": d, "reorder": True})
+    nsw = 48 if thorough else 24
+    for j in range(nsw):        # first: the slowest cases
+        cases.insert(j, {"id": f"sweep-{j}", "kind": "sweep", "j": j, "of": nsw})
     for i in range(9000 if thorough else 500):
         cases.append({"id": f"any-{i}", "kind": "any", "i": i})
 
     def evalfn(case):
         rng = random.Random(engine.subseed("C06", seed, case["id"]))
+        if case["kind"] == "sweep":
+            return eval_sweep(case, rng)
         return eval_grid(case, rng) if case["kind"] == "grid" else eval_any(case, rng)
 
     return dict(cases=cases, evalfn=evalfn, level="exploration", min_nontrivial=150,
@@ -65,7 +73,7 @@ def eval_grid(case, rng):
     v, code, name, p = suites.pick(rng)
     n, k, d = case["n"], case["k"], case["d"]
     spec, _ = tlssynth.random_spec(rng, v, code, nmax=0)
-    spec.app = [(d, rng.randbytes(n))]
+    spec.app = [(d, rng.randbytes(n))] + ([(d, rng.randbytes(rng.choice([1, 5, 300])))] if case.get("reorder") else [])
     spec.alert_end = False
     spec.tickets = 0
     conn = tlssynth.build_conn(spec, rng)
@@ -73,10 +81,16 @@ def eval_grid(case, rng):
     pts, k_eff = cuts_for_event(conn.events, idx, k, rng)
     ep = tcpcap.random_ep(rng)
     segs = tcpcap.segments(conn.events, ep, tcpcap.cut_at(pts))
+    if case.get("reorder"):
+        ev = conn.events[idx]
+        end = ev.woff + len(ev.wire)
+        i = next(j for j, s_ in enumerate(segs) if s_.dir == d and s_.payload and s_.woff + len(s_.payload) == end)
+        if i + 1 < len(segs) and segs[i + 1].dir == d and segs[i + 1].payload:
+            segs[i], segs[i + 1] = segs[i + 1], segs[i]
     fl = scene.tls_flow(conn, ep, segs)
     items = scene.stamp(scene.merge([fl], rng, "concat"), rng, rng.choice(["plain", "plain", "zero", "coarse", "dense"]))
     res, files, argv = e2e.run_capture(scene.capture(items), scene.keylog_text([fl], rng))
-    out = {"cls": ["grid", n, k, d, "v6" if ep.v6 else "v4"], "tags": [f"grid:k{k}"], "sample": {"case": case["id"], "suite": name, "version": suites.VNAME[v], "n": n, "k": k_eff, "dir": d}}
+    out = {"cls": ["grid", n, k, d, "v6" if ep.v6 else "v4", "reordered" if case.get("reorder") else ""], "tags": [f"grid:k{k}"], "sample": {"case": case["id"], "suite": name, "version": suites.VNAME[v], "n": n, "k": k_eff, "dir": d}}
     fail = e2e.run_failed(res)
     if fail:
         return dict(out, v="inconclusive" if fail.startswith("INCONCLUSIVE") else "violated", msg=fail, files=files)
@@ -85,7 +99,15 @@ def eval_grid(case, rng):
     kc, ks = e2e.tls_expect_keys(ep)
     key = kc if d == "c" else ks
     parts = [pk for pk in an.pkts if pk.proto == 6 and (pk.src, pk.sport, pk.dst, pk.dport) == key and (pk.flags & 0x08 or pk.payload)]
-    if len(parts) > k_eff:
+    if case.get("reorder"):
+        o, first = 0, []
+        for pk in parts:            # the segments that carry bytes of the first record (stream offsets [0, n))
+            if o < n and pk.payload:
+                first.append(pk)
+            o += len(pk.payload)
+        if len(first) > k_eff:
+            msgs.append(f"a record of {n} bytes carried by {k_eff} input packets (the next record's segment captured before its last one) was exported as {len(first)} segments")
+    elif len(parts) > k_eff:
         msgs.append(f"a record of {n} bytes carried by {k_eff} input packets was exported as {len(parts)} segments")
     if b"".join(pk.payload for pk in parts) != conn.truth[d]:
         msgs.append(f"concatenation of the {len(parts)} exported segments ({sum(len(pk.payload) for pk in parts)}B) is not the {n}-byte record")
@@ -94,6 +116,49 @@ def eval_grid(case, rng):
     out["nontrivial"] = True
     if msgs:
         return dict(out, v="violated", msg=f"{suites.VNAME[v]} {name} n={n} k={k_eff} dir={d}: " + "; ".join(msgs[:3]), files=dict(files, **{"out.pcapng": res.out}))
+    return dict(out, v="held")
+
+
+def eval_sweep(case, rng):
+    """checksums of the *exported* frames at every carry / fold boundary (C11's boundary solving, applied to the output side): a conversation first moves a little less than
+    64 KiB in each direction (so that the low sequence-number words are large and wrap soon), then several thousand 1-byte records - each exported segment and the pure ACK that
+    answers it differ from their predecessors by one in one 16-bit word, so the one's-complement sum of the frame walks through a contiguous range; the client port
+    advances from case to case by that range, and the cases together visit every residue of the sum (every end-around carry, double fold and the checksum values
+    0x0000 / 0xFFFF).  The strict output oracle recomputes every checksum."""
+    j, of = case["j"], case["of"]
+    fam, j = divmod(j, 24)               # a family = 24 cases that differ in the client port only: their fixed header sums step by `step` and cover every residue
+    step = 65536 // 24 + 1
+    nrec = step + 40
+    d0, other = ("c", "s") if fam % 2 == 0 else ("s", "c")
+    code = [0x1301, 0x009C, 0x1303, 0xC02F][fam % 4]
+    v = 0x0304 if code in (0x1301, 0x1303) else 0x0303
+    # both directions first move 65536 - nrec - 8 bytes: the low sequence/acknowledgement words then walk through the last nrec values below 0x10000 while the
+    # 1-byte records flow, first in one word, then in the other (and wrap, with the carry into the high word, at the very end)
+    first = 65536 - nrec - 8
+    big = [16384, 16384, 16384, first - 3 * 16384]
+    app = [(d0, rng.randbytes(n_)) for n_ in big] + [(other, rng.randbytes(n_)) for n_ in big]
+    app += [(other, rng.randbytes(1)) for _ in range(nrec + 20)] + [(d0, rng.randbytes(1)) for _ in range(nrec + 20)]
+    spec = tlssynth.Spec(version=v, suite=code, app=app)
+    spec.alert_end = False
+    conn = tlssynth.build_conn(spec, rng)
+    v6 = fam % 2 == 1
+    base = tcpcap.default_ep(3, v6, 443)
+    ep = tcpcap.Endpoints(base.cmac, base.smac, base.cip, base.sip, 1024 + j * step, 443, rng.randrange(1 << 32), rng.randrange(1 << 32))
+    segs = tcpcap.segments(conn.events, ep, tcpcap.cut_records(conn.events, 1))
+    fl = scene.tls_flow(conn, ep, segs)
+    items = scene.stamp(scene.merge([fl], rng, "concat"), rng, "plain")
+    extra = [] if fam % 2 == 0 else ["-m", "443:8443"]
+    res, files, argv = e2e.run_capture(scene.capture(items), scene.keylog_text([fl], rng), extra, cpu=600)
+    out = {"cls": ["sweep", fam, j, "v6" if v6 else "v4", d0], "tags": ["sweep"], "sample": {"case": case["id"], "suite": f"{code:04X}", "client_port": ep.cport, "one_byte_records_each_way": nrec, "options": extra}}
+    fail = e2e.run_failed(res)
+    if fail:
+        return dict(out, v="inconclusive" if fail.startswith("INCONCLUSIVE") else "violated", msg=fail, files=files)
+    an = outparse.Analysis(res.out)
+    msgs = strict_msgs(an) + e2e.check_tls_streams(an, conn, ep, extra[1:] if extra else None)
+    out["mon"] = {"strict_oracle_outputs": 1, "output_packets": len(an.pkts), "sweep_output_frames_checksummed": len(an.pkts)}
+    out["nontrivial"] = len(an.pkts) > 2 * nrec
+    if msgs:
+        return dict(out, v="violated", msg=f"checksum sweep, client port {ep.cport}, {len(an.pkts)} output frames: " + "; ".join(msgs[:3]), files=dict(files, **{"out.pcapng": res.out}))
     return dict(out, v="held")
 
 
